@@ -88,7 +88,25 @@ func (d *Driver) settle(timeout time.Duration, hookCounts bool) (ui.VerifSnap, e
 	deadline := time.Now().Add(timeout)
 	quietSince := time.Now()
 	emitted := atomic.LoadInt64(&d.Emitted)
+	var lockedSince time.Time
 	for {
+		if !d.S.VerifTryLock() {
+			// somebody holds the state lock (legitimately while a listing is fetched): with nothing in flight for
+			// stuckAfter it is not coming back
+			now := time.Now()
+			if lockedSince.IsZero() || d.InFlight == nil || d.InFlight() != 0 {
+				lockedSince = now
+			}
+			if now.Sub(lockedSince) > stuckAfter {
+				return ui.VerifSnap{}, fmt.Errorf("UI did not settle: the state lock has been held for %v with no exchange in flight (deadlock)", stuckAfter)
+			}
+			if now.After(deadline) {
+				return ui.VerifSnap{}, fmt.Errorf("UI did not settle within %v (state lock held)", timeout)
+			}
+			time.Sleep(300 * time.Microsecond)
+			continue
+		}
+		lockedSince = time.Time{}
 		snap := d.S.VerifSnapshot()
 		busy := snap.Mode == ui.VerifLoading || (hookCounts && snap.Mode == ui.VerifOpening)
 		loaders := false
